@@ -1345,10 +1345,6 @@ export class AllOfRuntype extends BaseRuntype {
   }
   validate(ctx: ValidateContext, input: unknown): boolean {
     for (const it of this.schemas) {
-      const isObj = typeof input === "object";
-      if (!isObj) {
-        return false;
-      }
       if (!it.validate(ctx, input)) {
         return false;
       }
@@ -1356,6 +1352,10 @@ export class AllOfRuntype extends BaseRuntype {
     return true;
   }
   parseAfterValidation(ctx: ParseContext, input: any): unknown {
+    if (typeof input !== "object" || input === null) {
+      // intersection of non-object types: every member accepted the same primitive
+      return input;
+    }
     let acc = {};
     for (const it of this.schemas) {
       const parsed = it.parseAfterValidation(ctx, input);
